@@ -23,9 +23,9 @@ PROFILES = {
                   Acts='{"nop", "wstop", "wcont", "wpost", "wtwice", "wconc", "wkeep", "jump", "return"}', MaxMulti=1, MaxConc=1),
     # continuations kept by a wrapper and run after the call returned (pending jump returns, errors, post-processing)
     "keep": dict(MaxSeq=2, MaxRules=2, MaxMatch=0, MKinds='{"T"}', Negs='{FALSE}',
-                 Acts='{"nop", "wkeep", "wpost", "perr", "jump", "return"}', MaxMulti=2, MaxConc=1),
+                 Acts='{"nop", "wkeep", "wpost", "perr", "jump", "return"}', MaxMulti=1, MaxConc=1),
     "keep3": dict(MaxSeq=3, MaxRules=2, MaxMatch=0, MKinds='{"T"}', Negs='{FALSE}',
-                  Acts='{"nop", "wkeep", "jump"}', MaxMulti=2, MaxConc=1),
+                  Acts='{"nop", "wkeep", "jump"}', MaxMulti=1, MaxConc=1),
     # nesting over three sequences
     "flow3": dict(MaxSeq=3, MaxRules=2, MaxMatch=0, MKinds='{"T"}', Negs='{FALSE}',
                   Acts='{"nop", "accept", "return", "jump", "goto"}', MaxMulti=1, MaxConc=1),
@@ -126,7 +126,7 @@ def run(ctx):
         "a kept continuation is run later on the copy of the query taken when it was kept, after (and for some text variants "
         "concurrently with) a second top-level run of the same sequences and an unrelated program's jumps",
     ]
-    profiles = ["flow", "match", "wrap1", "keep", "keep3", "flow3"] + (["wrap2", "mixed", "resp"] if T else [])
+    profiles = ["flow", "match", "wrap1", "keep", "flow3"] + (["keep3", "wrap2", "mixed", "resp"] if T else [])
 
     # ---- leg A (+ leg B generator: the same exhaustive run exports every program with its expected logs;
     # the terminal state of a program does not depend on the interleaving of concurrent copies)
